@@ -3,6 +3,6 @@ CONSTANTS
   N = 4
   Cap = 2
   MaxVer = 2
-  MaxBatch = 2
+  MaxBatch = 3
 INVARIANTS Transparent Coherent
 CHECK_DEADLOCK FALSE
